@@ -225,6 +225,48 @@ func provablyNonNilError(v ssa.Value, at *ssa.BasicBlock, depth int) bool {
 			"errors.Join", "github.com/cockroachdb/errors.New", "github.com/cockroachdb/errors.Errorf":
 			return true
 		}
+		// a module helper that maps an error (`return nil, toStatus(err)`): non-nil if every
+		// return of the helper is - where a return of its own parameter counts when the argument
+		// is non-nil here, and returns under `param == nil` are infeasible for a non-nil argument
+		if cal := StaticCallee(&x.Call); cal != nil && cal.Blocks != nil && inModule(cal) && !x.Call.IsInvoke() {
+			ei := errorResultIndex(cal)
+			if ei < 0 || cal.Signature.Results().Len() != 1 {
+				break
+			}
+			argNonNil := func(p *ssa.Parameter) bool {
+				for i, q := range cal.Params {
+					if q == p && i < len(x.Call.Args) {
+						return provablyNonNilError(x.Call.Args[i], at, depth+1)
+					}
+				}
+				return false
+			}
+			all, n := true, 0
+			eachInstr(cal, func(in ssa.Instruction) {
+				ret, ok := in.(*ssa.Return)
+				if !ok || !all {
+					return
+				}
+				n++
+				rv := retVal(ret, ei)
+				if provablyNonNilError(rv, ret.Block(), depth+1) {
+					return
+				}
+				if p, isP := rv.(*ssa.Parameter); isP && argNonNil(p) {
+					return
+				}
+				// `if err == nil { return nil }` with a non-nil argument: infeasible
+				for _, q := range cal.Params {
+					if isErrorType(q.Type()) && dominatedByNil(q, ret.Block()) && argNonNil(q) {
+						return
+					}
+				}
+				all = false
+			})
+			if all && n > 0 {
+				return true
+			}
+		}
 	case *ssa.UnOp:
 		// load of a package-level Err… variable
 		if g, ok := x.X.(*ssa.Global); ok && isErrorType(deref(g.Type())) {
@@ -277,6 +319,45 @@ func dominatedByNonNil(v ssa.Value, at *ssa.BasicBlock) bool {
 			return true
 		}
 		if bin.Op.String() == "==" && viaFalse {
+			return true
+		}
+	}
+	return false
+}
+
+// dominatedByNil: block `at` is dominated by the true edge of `v == nil` (or the false edge of `v != nil`).
+func dominatedByNil(v ssa.Value, at *ssa.BasicBlock) bool {
+	for b := at; b != nil; b = b.Idom() {
+		id := b.Idom()
+		if id == nil {
+			break
+		}
+		iff, ok := id.Instrs[len(id.Instrs)-1].(*ssa.If)
+		if !ok {
+			continue
+		}
+		bin, ok := iff.Cond.(*ssa.BinOp)
+		if !ok {
+			continue
+		}
+		var other ssa.Value
+		if bin.X == v {
+			other = bin.Y
+		} else if bin.Y == v {
+			other = bin.X
+		} else {
+			continue
+		}
+		if !isNilConst(other) {
+			continue
+		}
+		tEdge, fEdge := id.Succs[0], id.Succs[1]
+		viaTrue := tEdge.Dominates(at) && len(tEdge.Preds) == 1
+		viaFalse := fEdge.Dominates(at) && len(fEdge.Preds) == 1
+		if bin.Op.String() == "==" && viaTrue {
+			return true
+		}
+		if bin.Op.String() == "!=" && viaFalse {
 			return true
 		}
 	}
@@ -389,4 +470,99 @@ func deadEdge(b *ssa.BasicBlock, k int) bool {
 	}
 	v := constant.BoolVal(c.Value)
 	return (k == 0 && !v) || (k == 1 && v)
+}
+
+// edgeOnlyUnder: the control-flow edge pred→succ is taken only when lit holds: either the edge
+// itself establishes lit, or every path from the function's entry to pred crosses an edge that does.
+func edgeOnlyUnder(ctx *ExprCtx, pred, succ *ssa.BasicBlock, lit Lit) bool {
+	implies := func(b *ssa.BasicBlock, k int) bool {
+		for _, l := range ctx.EdgeLits(b, k) {
+			if l.Implies(lit) {
+				return true
+			}
+		}
+		return false
+	}
+	direct := true
+	n := 0
+	for k, s := range pred.Succs {
+		if s == succ && !deadEdge(pred, k) {
+			n++
+			if !implies(pred, k) {
+				direct = false
+			}
+		}
+	}
+	if n > 0 && direct {
+		return true
+	}
+	if len(pred.Instrs) == 0 {
+		return false
+	}
+	first := pred.Instrs[0]
+	wk := &Walk{Target: func(in ssa.Instruction) bool { return in == first }, EdgeOK: func(b *ssa.BasicBlock, k int) bool { return !implies(b, k) }}
+	return wk.Find(entry(pred.Parent())) == nil
+}
+
+// closureActivations: for a closure created in its parent by mc, the places where the parent may
+// run it: direct calls of mc, and phis it flows into that are called (with the delivering edge).
+// ok is false when the closure value escapes in a way that is not resolved (stored, passed on).
+type closureUse struct {
+	Call ssa.CallInstruction // direct call (Pred == nil) or the call of the phi
+	Pred *ssa.BasicBlock     // for a phi: the predecessor block that delivers this closure
+	Phi  *ssa.Phi
+}
+
+func closureActivations(mc *ssa.MakeClosure) (uses []closureUse, ok bool) {
+	ok = true
+	if mc.Referrers() == nil {
+		return nil, false
+	}
+	for _, ref := range *mc.Referrers() {
+		switch x := ref.(type) {
+		case ssa.CallInstruction:
+			if x.Common().Value == mc {
+				uses = append(uses, closureUse{Call: x})
+			} else {
+				ok = false
+			}
+		case *ssa.Phi:
+			called := false
+			if x.Referrers() != nil {
+				for _, r2 := range *x.Referrers() {
+					if ci, isC := r2.(ssa.CallInstruction); isC && ci.Common().Value == x {
+						called = true
+						for i, e := range x.Edges {
+							if e == mc {
+								uses = append(uses, closureUse{Call: ci, Pred: x.Block().Preds[i], Phi: x})
+							}
+						}
+					} else if _, isDbg := r2.(*ssa.DebugRef); !isDbg {
+						ok = false
+					}
+				}
+			}
+			if !called {
+				ok = false
+			}
+		case *ssa.DebugRef:
+		default:
+			ok = false
+		}
+	}
+	return uses, ok
+}
+
+// makeClosureOf finds the instruction in fn's parent that creates the closure fn.
+func makeClosureOf(fn *ssa.Function) *ssa.MakeClosure {
+	if fn.Parent() == nil {
+		return nil
+	}
+	var out *ssa.MakeClosure
+	eachInstr(fn.Parent(), func(in ssa.Instruction) {
+		if mc, ok := in.(*ssa.MakeClosure); ok && mc.Fn == fn {
+			out = mc
+		}
+	})
+	return out
 }
